@@ -1,28 +1,458 @@
-use swimos_api::persistence::{PlanePersistence, ServerPersistence, NodePersistence};
-fn one(d: &str, reopen: bool) {
-        {
-        let s = swimos_rocks_store::open_rocks_store(Some(d.to_string().into()), swimos_rocks_store::default_db_opts()).unwrap();
-        let p = s.open_plane("p").unwrap();
-        let mut nn = futures::FutureExt::now_or_never(p.node_store("/a")).unwrap().unwrap();
-        let id = nn.id_for("x").unwrap();
-        nn.put_value(id, &[1]).unwrap();
-        }
-        if reopen {
-        let s = swimos_rocks_store::open_rocks_store(Some(d.to_string().into()), swimos_rocks_store::default_db_opts()).unwrap();
-        let p = s.open_plane("p").unwrap();
-        let nn = futures::FutureExt::now_or_never(p.node_store("/a")).unwrap().unwrap();
-        let id = nn.id_for("x").unwrap();
-        let mut b = bytes::BytesMut::new();
-        assert_eq!(nn.get_value(id, &mut b).unwrap(), Some(1));
-        }
-        std::fs::remove_dir_all(&d).unwrap();
+//! C13 - Both stores behave as isolated per-agent, per-item value/map storage.
+//!
+//! Engine E2 (bounded exhaustive enumeration of operation sequences, smallest first) over the
+//! in-memory store (hook re-export) and the RocksDB store (`open_rocks_store`), both driven only
+//! through `swimos_api::persistence::{ServerPersistence, PlanePersistence, NodePersistence,
+//! RangeConsumer}` and compared with a reference model `Map<(uri, name), Value | Map>`; plus
+//! crash-point enumeration for RocksDB (a re-exec'd child is killed at every operation boundary
+//! and, with strace fault injection, at every write-family system call).
+
+mod crash;
+mod exec;
+mod model;
+
+use exec::{run_sequence, Backend, ObsMode, SeqOut};
+use model::{op_text, ops_from_json, ops_to_json, Item, Op};
+use serde_json::{json, Value};
+use std::collections::{BTreeMap, HashSet};
+use std::path::PathBuf;
+use std::sync::atomic::{AtomicBool, AtomicU64, Ordering};
+use std::time::{Duration, Instant};
+use vcommon::{Ctx, Leg};
+
+/// One exhaustive family: every sequence over `alphabet` up to `depth`.
+pub struct Family {
+    pub name: &'static str,
+    pub backend: Backend,
+    pub items: Vec<Item>,
+    pub alphabet: Vec<Op>,
+    pub depth: usize,
+    pub obs: ObsMode,
+    pub cap: Duration,
 }
+
+fn it(a: u8, n: u8) -> Item {
+    Item { a, n }
+}
+
+// key indices (see model::keys): 0 [], 1 [0], 2 [0,0], 3 [255], 4 [255,255], 5 K8, 6 K9
+const ALL_KEYS: [u8; 7] = [0, 1, 2, 3, 4, 5, 6];
+
+fn alpha_keys(rocks: bool) -> (Vec<Item>, Vec<Op>) {
+    // one map item with the whole key alphabet
+    let i1 = it(0, 0); // ("/a","x")
+    let mut a = vec![];
+    for k in ALL_KEYS {
+        a.push(Op::Update(i1, k, 1));
+    }
+    a.push(Op::Update(i1, 1, 0)); // empty value under key [0]
+    for k in [0u8, 1, 5] {
+        a.push(Op::Remove(i1, k));
+    }
+    a.push(Op::Clear(i1));
+    if rocks {
+        a.push(Op::Reopen);
+    } else {
+        for m in 0..3 {
+            a.push(Op::Reacquire(0, m));
+        }
+    }
+    (vec![i1], a)
+}
+
+fn alpha_neighbours(rocks: bool) -> (Vec<Item>, Vec<Op>) {
+    // two map items of one agent (adjacent ids, either allocation order); K8 is the id of the
+    // second-allocated lane in little-endian, K9 its seek prefix
+    let i1 = it(0, 0); // ("/a","x")
+    let i2 = it(0, 2); // ("/a","")
+    let mut a = vec![];
+    for i in [i1, i2] {
+        a.push(Op::Update(i, 1, 1));
+        a.push(Op::Update(i, 5, 1));
+        a.push(Op::Clear(i));
+    }
+    a.push(Op::Update(i1, 6, 0));
+    a.push(Op::Remove(i1, 1));
+    if rocks {
+        a.push(Op::Reopen);
+    } else {
+        a.push(Op::Reacquire(0, 0));
+    }
+    (vec![i1, i2], a)
+}
+
+fn alpha_values(rocks: bool) -> (Vec<Item>, Vec<Op>) {
+    let items = vec![it(0, 0), it(1, 0), it(0, 3)]; // ("/a","x") ("/a/b","x") ("/a","x\0")
+    let mut a = vec![];
+    for i in &items {
+        a.push(Op::Put(*i, 0));
+        a.push(Op::Put(*i, 1));
+    }
+    for i in &items {
+        a.push(Op::Delete(*i));
+    }
+    if rocks {
+        a.push(Op::Reopen);
+        a.push(Op::Reacquire(0, 0));
+    } else {
+        for m in 0..3 {
+            a.push(Op::Reacquire(0, m));
+        }
+    }
+    (items, a)
+}
+
+fn alpha_mixed(rocks: bool) -> (Vec<Item>, Vec<Op>) {
+    // value and map operations on the same items, two agents with the same item name
+    let items = vec![it(0, 0), it(2, 0)]; // ("/a","x") ("/b","x")
+    let mut a = vec![];
+    for i in &items {
+        if !rocks {
+            a.push(Op::IdFor(*i));
+        }
+        a.push(Op::Put(*i, 1));
+        a.push(Op::Delete(*i));
+        a.push(Op::Update(*i, 1, 1));
+        a.push(Op::Remove(*i, 1));
+        a.push(Op::Clear(*i));
+    }
+    if rocks {
+        a.push(Op::Reopen);
+    } else {
+        a.push(Op::Reacquire(0, 0));
+        a.push(Op::Reacquire(0, 1));
+        a.push(Op::Reacquire(2, 2));
+    }
+    (items, a)
+}
+
+fn alpha_names(rocks: bool) -> (Vec<Item>, Vec<Op>) {
+    // the pair of section 4 (F8) plus the two "straight" items of the same agents
+    let items = vec![it(0, 1), it(1, 0), it(0, 0), it(1, 1)]; // ("/a","b/x") ("/a/b","x") ("/a","x") ("/a/b","b/x")
+    let mut a = vec![];
+    for i in &items {
+        a.push(Op::Put(*i, 1));
+        a.push(Op::Update(*i, 1, 1));
+        a.push(Op::Delete(*i));
+        a.push(Op::Clear(*i));
+    }
+    if !rocks {
+        a.push(Op::Reacquire(0, 0));
+    }
+    (items, a)
+}
+
+fn alpha_reads(_rocks: bool) -> (Vec<Item>, Vec<Op>) {
+    // explicit read operations as sequence elements (no implicit observation in between)
+    let items = vec![it(0, 0), it(2, 0)];
+    let mut a = vec![];
+    for i in &items {
+        a.push(Op::IdFor(*i));
+        a.push(Op::Put(*i, 1));
+        a.push(Op::Get(*i));
+        a.push(Op::Delete(*i));
+        a.push(Op::Update(*i, 1, 1));
+        a.push(Op::Remove(*i, 1));
+        a.push(Op::Clear(*i));
+        a.push(Op::ReadMap(*i));
+    }
+    (items, a)
+}
+
+fn families(quick: bool) -> Vec<Family> {
+    let mem = Backend::Mem;
+    let rk = Backend::Rocks { default_opts: false };
+    let rk_def = Backend::Rocks { default_opts: true };
+    let mut f = vec![];
+    let cap_m = Duration::from_secs(if quick { 20 } else { 240 });
+    let cap_r = Duration::from_secs(if quick { 20 } else { 420 });
+    let mut push = |name, backend, (items, alphabet): (Vec<Item>, Vec<Op>), depth, obs, cap| {
+        f.push(Family { name, backend, items, alphabet, depth, obs, cap });
+    };
+    // ---- in-memory store
+    push("mem.keys.obs", mem, alpha_keys(false), if quick { 4 } else { 6 }, ObsMode::EachStep, cap_m);
+    push("mem.keys.final", mem, alpha_keys(false), if quick { 4 } else { 6 }, ObsMode::FinalOnly, cap_m);
+    push("mem.neighbours.obs", mem, alpha_neighbours(false), if quick { 5 } else { 7 }, ObsMode::EachStep, cap_m);
+    push("mem.neighbours.final", mem, alpha_neighbours(false), if quick { 5 } else { 7 }, ObsMode::FinalOnly, cap_m);
+    push("mem.values.obs", mem, alpha_values(false), if quick { 5 } else { 6 }, ObsMode::EachStep, cap_m);
+    push("mem.values.final", mem, alpha_values(false), if quick { 5 } else { 6 }, ObsMode::FinalOnly, cap_m);
+    push("mem.mixed.obs", mem, alpha_mixed(false), if quick { 5 } else { 6 }, ObsMode::EachStep, cap_m);
+    push("mem.mixed.final", mem, alpha_mixed(false), if quick { 5 } else { 6 }, ObsMode::FinalOnly, cap_m);
+    push("mem.names.obs", mem, alpha_names(false), if quick { 4 } else { 5 }, ObsMode::EachStep, cap_m);
+    push("mem.reads.final", mem, alpha_reads(false), if quick { 4 } else { 6 }, ObsMode::FinalOnly, cap_m);
+    // ---- RocksDB store (every sequence ends with close + reopen + full sweep)
+    push("rocks.keys.obs", rk, alpha_keys(true), if quick { 3 } else { 4 }, ObsMode::EachStep, cap_r);
+    push("rocks.neighbours.obs", rk, alpha_neighbours(true), if quick { 3 } else { 4 }, ObsMode::EachStep, cap_r);
+    push("rocks.values.obs", rk, alpha_values(true), if quick { 3 } else { 4 }, ObsMode::EachStep, cap_r);
+    push("rocks.mixed.obs", rk, alpha_mixed(true), if quick { 3 } else { 4 }, ObsMode::EachStep, cap_r);
+    push("rocks.names.obs", rk, alpha_names(true), if quick { 2 } else { 3 }, ObsMode::EachStep, cap_r);
+    push("rocks.reads.final.default_opts", rk_def, alpha_reads(true), if quick { 2 } else { 3 }, ObsMode::FinalOnly, cap_r);
+    f
+}
+
+fn family_by_name(name: &str, quick: bool) -> Option<Family> {
+    families(quick).into_iter().find(|f| f.name == name)
+}
+
+pub fn tmp_root(ctx_root: &std::path::Path) -> PathBuf {
+    ctx_root.join("target").join("tmp")
+}
+
+static DIR_SEQ: AtomicU64 = AtomicU64::new(0);
+
+pub fn fresh_dir(root: &std::path::Path, tag: &str) -> PathBuf {
+    let n = DIR_SEQ.fetch_add(1, Ordering::Relaxed);
+    let d = tmp_root(root).join(format!("c13-{}-{}-{}", std::process::id(), tag, n));
+    let _ = std::fs::remove_dir_all(&d);
+    std::fs::create_dir_all(&d).unwrap_or_else(|e| vcommon::machinery_failure(&format!("cannot create {}: {}", d.display(), e)));
+    d
+}
+
+struct TaskOut {
+    evals: u64,
+    calls: u64,
+    nontrivial: u64,
+    digests: HashSet<u64>,
+    fails: BTreeMap<String, (Vec<Op>, String)>,
+    completed: bool,
+}
+
+fn seqs_of_len(a: usize, len: usize) -> Vec<Vec<usize>> {
+    let mut out: Vec<Vec<usize>> = vec![vec![]];
+    for _ in 0..len {
+        out = out
+            .into_iter()
+            .flat_map(|p| {
+                (0..a).map(move |i| {
+                    let mut q = p.clone();
+                    q.push(i);
+                    q
+                })
+            })
+            .collect();
+    }
+    out
+}
+
+fn run_family(ctx: &Ctx, fam: &Family, budget_end: Instant) {
+    let t0 = Instant::now();
+    let a = fam.alphabet.len();
+    // every length is run as a complete sequence of its own (with its final phase), shortest
+    // first, so the first counterexample per signature is minimal in (length, alphabet order)
+    let lens: Vec<usize> = (0..=fam.depth).collect();
+    // tasks: (len, prefix); sequences of exactly `len` ops starting with `prefix`
+    let mut tasks: Vec<(usize, Vec<usize>)> = vec![];
+    for &len in &lens {
+        for p in seqs_of_len(a, len.min(2)) {
+            tasks.push((len, p));
+        }
+    }
+    let stop = AtomicBool::new(false);
+    let deadline = (t0 + fam.cap).min(budget_end);
+    let root = ctx.root.clone();
+    let threads = vcommon::ncpu();
+    let outs: Vec<TaskOut> = vcommon::par_map(&tasks, threads, |ti, (len, prefix)| {
+        let mut out = TaskOut { evals: 0, calls: 0, nontrivial: 0, digests: HashSet::new(), fails: BTreeMap::new(), completed: false };
+        let rest = len - prefix.len();
+        let mut suffix = vec![0usize; rest];
+        let dir = if fam.backend.is_rocks() { Some(fresh_dir(&root, &format!("e2-{}", ti))) } else { None };
+        'seqs: loop {
+            if stop.load(Ordering::Relaxed) {
+                break;
+            }
+            if out.evals % 16 == 0 && Instant::now() > deadline {
+                stop.store(true, Ordering::Relaxed);
+                break;
+            }
+            let ops: Vec<Op> = prefix.iter().chain(suffix.iter()).map(|&i| fam.alphabet[i]).collect();
+            let r: SeqOut = run_sequence(fam.backend, &fam.items, &ops, fam.obs, dir.as_deref());
+            out.evals += 1;
+            out.calls += r.calls;
+            if r.nontrivial {
+                out.nontrivial += 1;
+            }
+            out.digests.extend(r.digests.iter().copied());
+            if let Some(f) = r.fail {
+                let failing: Vec<Op> = ops[..f.upto.min(ops.len())].to_vec();
+                let e = out.fails.entry(f.sig.clone());
+                match e {
+                    std::collections::btree_map::Entry::Vacant(v) => {
+                        v.insert((failing, f.what));
+                    }
+                    std::collections::btree_map::Entry::Occupied(mut o) => {
+                        if (failing.len(), &failing) < (o.get().0.len(), &o.get().0) {
+                            o.insert((failing, f.what));
+                        }
+                    }
+                }
+            }
+            // next suffix
+            let mut p = rest;
+            loop {
+                if p == 0 {
+                    out.completed = true;
+                    break 'seqs;
+                }
+                p -= 1;
+                suffix[p] += 1;
+                if suffix[p] < a {
+                    break;
+                }
+                suffix[p] = 0;
+            }
+        }
+        if let Some(d) = dir {
+            let _ = std::fs::remove_dir_all(d);
+        }
+        out
+    });
+    let mut evals = 0;
+    let mut calls = 0;
+    let mut nontrivial = 0;
+    let mut digests: HashSet<u64> = HashSet::new();
+    let mut fails: BTreeMap<String, (Vec<Op>, String)> = BTreeMap::new();
+    let mut completed = 0usize;
+    for o in outs {
+        evals += o.evals;
+        calls += o.calls;
+        nontrivial += o.nontrivial;
+        digests.extend(o.digests);
+        if o.completed {
+            completed += 1;
+        }
+        for (sig, (ops, what)) in o.fails {
+            match fails.get(&sig) {
+                Some((o2, _)) if (o2.len(), o2) <= (ops.len(), &ops) => {}
+                _ => {
+                    fails.insert(sig, (ops, what));
+                }
+            }
+        }
+    }
+    let exhaustive = completed == tasks.len();
+    // report smallest first
+    let mut fl: Vec<(String, Vec<Op>, String)> = fails.into_iter().map(|(s, (o, w))| (s, o, w)).collect();
+    fl.sort_by(|x, y| (x.1.len(), &x.1, &x.0).cmp(&(y.1.len(), &y.1, &y.0)));
+    for (sig, ops, what) in fl {
+        ctx.violation(
+            fam.name,
+            &sig,
+            json!({"kind": "sequence", "family": fam.name, "tier": ctx.tier.name(), "what": what,
+                   "example": format!("fresh store; [{}]; then: {}", ops.iter().map(op_text).collect::<Vec<_>>().join("; "), what),
+                   "ops": ops.iter().map(op_text).collect::<Vec<_>>(), "ops_enc": ops_to_json(&ops)}),
+        );
+    }
+    let total: f64 = lens.iter().map(|&l| (a as f64).powi(l as i32)).sum();
+    let sample = |idx: &[usize]| -> Value { json!(idx.iter().map(|&i| op_text(&fam.alphabet[i % a])).collect::<Vec<_>>()) };
+    let d = fam.depth;
+    let samples = vec![
+        sample(&(0..d).map(|i| (i * 7 + 1) % a).collect::<Vec<_>>()),
+        sample(&(0..d).map(|i| (a - 1).saturating_sub(i * 3)).collect::<Vec<_>>()),
+    ];
+    ctx.add_leg(Leg {
+        name: fam.name.into(),
+        engine: "E2-seq-enum".into(),
+        states: digests.len() as u64,
+        transitions: calls,
+        evaluations: evals,
+        distinct_nontrivial: nontrivial,
+        rule: "all op sequences over the family alphabet; non-trivial = at some point two distinct items hold data at once, or a reacquire/reopen happens while data is stored".into(),
+        samples,
+        exhaustive,
+        bounds: json!({"backend": fam.backend.name(), "alphabet_size": a, "depth": fam.depth, "lengths_run": lens,
+            "observation": fam.obs.name(), "sequences_in_space": total, "sequences_run": evals,
+            "tasks_completed": completed, "tasks": tasks.len(),
+            "items": fam.items.iter().map(|i| i.text()).collect::<Vec<_>>(),
+            "alphabet": fam.alphabet.iter().map(op_text).collect::<Vec<_>>(),
+            "final": if fam.backend.is_rocks() { "non-allocating observation, close+reopen, allocating sweep of all items" } else { "allocating sweep of all items" }}),
+        wall_s: t0.elapsed().as_secs_f64(),
+    });
+}
+
+/// Stand-alone reproduction of the lane-id key collision (DESIGN section 4, F8): nothing but the
+/// public API of swimos_rocks_store / swimos_api.
+fn repro_f8() -> ! {
+    use bytes::BytesMut;
+    use futures::FutureExt;
+    use swimos_api::persistence::{NodePersistence, PlanePersistence, ServerPersistence};
+    let dir = std::env::temp_dir().join(format!("c13-f8-{}", std::process::id()));
+    let store = swimos_rocks_store::open_rocks_store(Some(dir.clone()), swimos_rocks_store::default_db_opts()).unwrap();
+    let plane = store.open_plane("plane").unwrap();
+    let mut a = plane.node_store("/a").now_or_never().unwrap().unwrap();
+    let ab = plane.node_store("/a/b").now_or_never().unwrap().unwrap();
+    let id1 = a.id_for("b/x").unwrap();
+    let id2 = ab.id_for("x").unwrap();
+    a.put_value(id1, b"written by agent /a, lane b/x").unwrap();
+    let mut buf = BytesMut::new();
+    let r = ab.get_value(id2, &mut buf).unwrap();
+    println!("id_for(/a, b/x) = {:?}; id_for(/a/b, x) = {:?}; agent /a/b lane x reads {:?} = {:?}", id1, id2, r, String::from_utf8_lossy(&buf));
+    drop((a, ab, plane, store));
+    let _ = std::fs::remove_dir_all(dir);
+    std::process::exit(if id1 == id2 { 1 } else { 0 })
+}
+
 fn main() {
-    for reopen in [false, true] {
-    for th in [1usize, 16] {
-    let t = std::time::Instant::now();
-    let n = 40;
-    std::thread::scope(|s| { for k in 0..th { s.spawn(move || { for i in 0..n { one(&format!("/verif/target/tmp/c13-m-{}-{}", k, i), reopen); } }); } });
-    println!("reopen={} threads={} per seq wall: {:?} (throughput {:.0}/s)", reopen, th, t.elapsed() / n as u32, (n*th) as f64 / t.elapsed().as_secs_f64());
-    }}
+    let args: Vec<String> = std::env::args().collect();
+    if args.len() >= 2 && args[1] == "--child" {
+        crash::child_main(&args[2..]);
+    }
+    if args.len() >= 2 && args[1] == "--repro-f8" {
+        repro_f8();
+    }
+    let ctx = Ctx::from_env("C13");
+    let _ = std::fs::create_dir_all(tmp_root(&ctx.root));
+    // stale directories of an earlier (killed) run
+    if let Ok(rd) = std::fs::read_dir(tmp_root(&ctx.root)) {
+        for e in rd.flatten() {
+            if e.file_name().to_string_lossy().starts_with("c13-") {
+                let _ = std::fs::remove_dir_all(e.path());
+            }
+        }
+    }
+
+    if let Some(r) = ctx.replay_request() {
+        let d = r["detail"].clone();
+        let sig = r["signature"].as_str().unwrap_or("").to_string();
+        match d["kind"].as_str() {
+            Some("sequence") => {
+                let quick = d["tier"].as_str() != Some("thorough");
+                let fam = family_by_name(d["family"].as_str().unwrap_or(""), quick)
+                    .unwrap_or_else(|| vcommon::machinery_failure("replay: unknown family"));
+                let ops = ops_from_json(&d["ops_enc"]).unwrap_or_else(|| vcommon::machinery_failure("replay: bad ops_enc"));
+                let dir = if fam.backend.is_rocks() { Some(fresh_dir(&ctx.root, "replay")) } else { None };
+                // the failing prefix is replayed as a complete sequence of its own
+                let out = run_sequence(fam.backend, &fam.items, &ops, fam.obs, dir.as_deref());
+                if let Some(dd) = dir {
+                    let _ = std::fs::remove_dir_all(dd);
+                }
+                if let Some(f) = out.fail {
+                    eprintln!("replay: reproduced: {} :: {}", f.sig, f.what);
+                    ctx.violation("replay", &f.sig, json!({"kind": "sequence", "family": fam.name, "tier": d["tier"], "what": f.what,
+                        "ops": ops.iter().map(op_text).collect::<Vec<_>>(), "ops_enc": ops_to_json(&ops)}));
+                } else {
+                    eprintln!("replay: sequence no longer fails (recorded signature: {})", sig);
+                }
+            }
+            Some("crash") => crash::replay(&ctx, &d),
+            _ => vcommon::machinery_failure("replay: unknown kind"),
+        }
+        ctx.finish("model_checking", "replay");
+    }
+
+    // overall wall budget of the E2 legs (a leg that runs into it reports exhaustive=false)
+    let budget_end = Instant::now() + Duration::from_secs(if ctx.quick() { 45 } else { 1500 });
+    for fam in families(ctx.quick()) {
+        run_family(&ctx, &fam, budget_end);
+    }
+    crash::run_legs(&ctx);
+
+    ctx.assume("kind discipline is store-specific and modelled as observed: the in-memory store rejects wrong-kind access with an error and no state change (a map emptied by remove keeps its kind, delete/clear reset it); the RocksDB store keeps the value and the map of an id in independent keyspaces");
+    ctx.assume("RocksDB lane ids address a plane-wide keyspace, so ids must be pairwise distinct across the whole plane; in-memory ids are per node store, so distinctness is required per agent");
+    ctx.assume("bulk RocksDB legs use default_db_opts() with max_file_opening_threads=1 (performance only); one E2 leg and all crash legs use the unmodified default_db_opts()");
+    ctx.assume("process-kill model: completed system calls persist (page cache survives SIGKILL); power loss is outside the property");
+    ctx.assume("entries returned by read_map are compared as a set of (key,value) pairs with no duplicate keys; iteration order is not part of the property");
+    ctx.finish(
+        "model_checking",
+        "bounded-exhaustive enumeration of operation sequences on the real in-memory and RocksDB stores against a reference map model, plus exhaustive crash-point enumeration (operation boundaries; write-family system calls via strace injection) with reopen-and-compare",
+    );
 }
